@@ -1,9 +1,21 @@
 // C14 - functors, currying, composition and extraction are equivalent to direct views (E2 + generator)
 //
-// Units (selected by -D flags on this source; see c14_driver.hpp for the generic machinery):
-//   -DC14_PART=1 -DC14_GROUP=g      (i)   currying: every functor of array/functional, every split of attributes / operands
-//   -DC14_PART=2 -DC14_LEN=n [-DC14_SLICE=k]   (ii)  compositions of n functors (all parenthesisations); slice k = rightmost letter k
-//   -DC14_PART=3 -DC14_GROUP=g      (iii) extraction: function composition + operands + compute graph of nested views
+// Units (selected by -D flags on this source; c14_driver.hpp holds the generic machinery, engine/nmc_ref_c14.hpp the shape model
+// that the ENUMERATOR uses to pick well-formed inputs - the oracle itself is differential: the direct view call):
+//   -DC14_PART=1 -DC14_GROUP=1..8                     (i)   currying: every functor of array/functional x every split of the [attribute] / (operand) applications
+//   -DC14_PART=2 -DC14_LEN=2                          (ii)  all 2-chains f*g over the 12-letter alphabet
+//   -DC14_PART=2 -DC14_LEN=3 -DC14_SLICE=0..11        (ii)  3-chains whose rightmost letter has alphabet index SLICE, both parenthesisations
+//   -DC14_PART=2 -DC14_LEN=4 -DC14_SLICE=0..6 [-DC14_SUB=0..6]   (ii, thorough tier only) 4-chains over the reduced 7-letter alphabet, five parenthesisations
+//   -DC14_PART=3 -DC14_GROUP=1..3                     (iii) extraction: apply(get_function_composition, get_function_operands), operand identity, compute graph
+//
+// Non-triviality rules (one per part; distinct = distinct case key):
+//   part 1: case = (functor program, split, operand shapes, attribute values); non-trivial when the direct view call yields a value with >= 2 elements
+//   part 2: case = (chain, parenthesisation, operand shapes, attribute of every letter); non-trivial when every result of the direct evaluation
+//           (a chain may end in an operand pack) has a value and they hold >= 2 elements in total
+//   part 3: case = (nested view program, check, operand shapes, axis); apply check: the view has a value with >= 2 elements; operand check: the view has
+//           >= 2 leaf occurrences (or >= 2 elements); graph check: always (the graph is a property of the program, it is compared for every shape)
+// Operand values are all distinct inside an operand and across the operands of a case; comparisons are exact (both sides run the same scalar code),
+// NaN == NaN.  nmtools::utils::isequal / isclose are never used.
 #ifndef C14_PART
 #error "define C14_PART"
 #endif
@@ -18,7 +30,7 @@ using namespace c14;
 // Non-triviality rule (part 1): a case is non-trivial when the direct view call yields a value with at least 2 elements.
 // case = (functor program, split of the attribute / operand applications, operand shapes, attribute values).
 #ifndef C14_GROUP
-#error "define C14_GROUP (1..6)"
+#error "define C14_GROUP (1..8)"
 #endif
 #define VIEWF(name) [](const auto&... x) { return view::name(x...); }
 #define DEC(...) [](const LL& a) { (void)a; return std::make_tuple(__VA_ARGS__); }
@@ -383,6 +395,29 @@ static const auto& programs() {
         prog<1, double>("avg_pool2d", D_ANY, fn::avg_pool2d, VIEWF(avg_pool2d), DEC(to_il(a[0]), to_il(a[1]), (bool)(a[2][0] != 0)), [](bool, const SpaceSink& f) { pool_space(f); }),
         prog<5, double>("batch_norm", D_POS, fn::batch_norm, VIEWF(batch_norm), DEC(), [](bool, const SpaceSink& f) { bn_space(f, false); }),
         prog<5, double>("batch_norm_eps", D_POS, fn::batch_norm, VIEWF(batch_norm), DEC((double)a[0][0] / 1024.0), [](bool, const SpaceSink& f) { bn_space(f, true); })
+    );
+    return p;
+}
+#elif C14_GROUP == 8
+// ---- operands that are views: a maybe-valued view (reshape to the same shape) or a plain view (negative) in either operand position ----
+#include "nmtools/array/functional/ufuncs/subtract.hpp"
+#include "nmtools/array/functional/ufuncs/negative.hpp"
+#include "nmtools/array/functional/concatenate.hpp"
+#include "nmtools/array/functional/reshape.hpp"
+#include "nmtools/array/functional/where.hpp"
+template <class A> static auto same_reshape(const A& a) { il s; for (size_t i = 0; i < (size_t)a.dim(); i++) s.push_back((int)nm::at(a.shape(), i)); return view::reshape(a, s); }
+#define WRAP2(E0, E1) [](const auto& t) { const auto& x0 = std::get<0>(t); const auto& x1 = std::get<1>(t); (void)x0; (void)x1; return std::tuple<decltype(E0), decltype(E1)>(E0, E1); }
+static const auto& programs() {
+    static const auto p = std::make_tuple(
+        prog_wrapped<2, long>("subtract_maybeview_array", D_INT, fn::subtract, VIEWF(subtract), DEC(), WRAP2(same_reshape(x0), (x1)), sp2()),
+        prog_wrapped<2, long>("subtract_array_maybeview", D_INT, fn::subtract, VIEWF(subtract), DEC(), WRAP2((x0), same_reshape(x1)), sp2()),
+        prog_wrapped<2, long>("subtract_view_array", D_INT, fn::subtract, VIEWF(subtract), DEC(), WRAP2(view::negative(x0), (x1)), sp2()),
+        prog_wrapped<2, long>("subtract_array_view", D_INT, fn::subtract, VIEWF(subtract), DEC(), WRAP2((x0), view::negative(x1)), sp2()),
+        prog_wrapped<2, long>("subtract_maybeview_maybeview", D_INT, fn::subtract, VIEWF(subtract), DEC(), WRAP2(same_reshape(x0), same_reshape(x1)), sp2()),
+        prog_wrapped<2, long>("concatenate_maybeview_array", D_INT, fn::concatenate, VIEWF(concatenate), DEC((int)a[0][0]), WRAP2(same_reshape(x0), (x1)), sp2same(mn::axis_any)),
+        prog_wrapped<2, long>("concatenate_array_view", D_INT, fn::concatenate, VIEWF(concatenate), DEC((int)a[0][0]), WRAP2((x0), view::negative(x1)), sp2same(mn::axis_any)),
+        prog_wrapped<1, long>("reshape_of_maybeview", D_INT, fn::reshape, VIEWF(reshape), DEC(to_il(a[0])), [](const auto& t) { return std::make_tuple(same_reshape(std::get<0>(t))); }, sp1(mn::reshapes)),
+        prog_wrapped<1, long>("negative_of_maybeview", D_INT, fn::negative, VIEWF(negative), DEC(), [](const auto& t) { return std::make_tuple(same_reshape(std::get<0>(t))); }, sp1())
     );
     return p;
 }
